@@ -372,3 +372,58 @@ def unguarded_match_uses(db, modnames):
                     if not match_use_guarded(fn, u, u.value.id, rr):
                         out.append((q, u, u.value.id))
     return out, n
+
+
+def regex_of(db, call, modname=None):
+    """(method, pattern text or None, flags, subject expression) of a regex call in either spelling:
+    re.<m>(pattern, subject, flags) - the canonical form the normaliser produces - or <compiled>.<m>(subject)
+    with <compiled> bound at module or class level to re.compile(pattern, flags)"""
+    from ..engine.facts import str_value
+    if not (isinstance(call, ast.Call) and isinstance(call.func, ast.Attribute)):
+        return None
+    m = call.func.attr
+    if m not in ("match", "search", "fullmatch", "sub", "subn", "split", "findall", "finditer"):
+        return None
+
+    def flagval(e):
+        import re as _re
+        if e is None:
+            return 0
+        if isinstance(e, ast.BinOp) and isinstance(e.op, ast.BitOr):
+            return flagval(e.left) | flagval(e.right)
+        d = dotted(e)
+        if d and d.startswith("re."):
+            return int(getattr(_re, d[3:]))
+        if isinstance(e, ast.Constant) and isinstance(e.value, int):
+            return e.value
+        raise AnalysisError("regex flags expression %s not understood" % src(e))
+    recv = call.func.value
+    if isinstance(recv, ast.Name) and recv.id == "re":
+        if not call.args:
+            return None
+        pat = str_value(call.args[0])
+        nsub = {"sub": 2, "subn": 2}.get(m, 1)
+        subj = call.args[nsub] if len(call.args) > nsub else None
+        fl = None
+        if m in ("match", "search", "fullmatch", "findall", "finditer") and len(call.args) > 2:
+            fl = call.args[2]
+        for k in call.keywords:
+            if k.arg == "flags":
+                fl = k.value
+        return m, pat, flagval(fl), subj
+    comp = None
+    if isinstance(recv, ast.Name) and modname:
+        try:
+            comp = db.module_assign(modname, recv.id)
+        except AnalysisError:
+            comp = None
+    elif isinstance(recv, ast.Call) and dotted(recv.func) == "re.compile":
+        comp = recv
+    if isinstance(comp, ast.Call) and dotted(comp.func) == "re.compile" and comp.args:
+        fl = comp.args[1] if len(comp.args) > 1 else None
+        for k in comp.keywords:
+            if k.arg == "flags":
+                fl = k.value
+        nsub = {"sub": 1, "subn": 1}.get(m, 0)
+        return m, str_value(comp.args[0]), flagval(fl), (call.args[nsub] if len(call.args) > nsub else None)
+    return None
